@@ -208,11 +208,6 @@ func (s *SpokFile) run(stream iostream.IOStream, runner shell.Runner, force bool
 		return nil, fmt.Errorf("Could not load spok cache file at %q: %s", cachePath, err)
 	}
 
-	// Whether or not we want to update the cache after running e.g.
-	// if there were no file dependencies to update or if the task
-	// did not succeed
-	updateCache := true
-
 	for _, taskToRun := range runOrder {
 		// Gather up all the files to be hashed into a single slice
 		var toHash []string
@@ -230,23 +225,16 @@ func (s *SpokFile) run(stream iostream.IOStream, runner shell.Runner, force bool
 
 		s.logger.Debug("Task %s depends on %d files", taskToRun.Name, len(toHash))
 
-		// If the task did not declare any file dependencies, let's not
-		// update the cache, this way it will always run
-		if len(toHash) == 0 {
-			updateCache = false
-		}
-
-		var hasher hash.Hasher
-		if force {
-			hasher = hash.AlwaysRun{}
-		} else {
-			hasher = hash.New()
-		}
-
+		// The real digest is always calculated, even when forcing, so that a successful
+		// forced run is recorded against the files it actually ran on
 		hashStart := time.Now()
-		currentDigest, err := hasher.Hash(toHash)
+		currentDigest, err := hash.New().Hash(toHash)
 		if err != nil {
-			return nil, err
+			if !force {
+				return nil, err
+			}
+			// Forced tasks run regardless, there is just nothing that can be recorded
+			currentDigest = ""
 		}
 		s.logger.Debug("Calculated digest of %d files in %v", len(toHash), time.Since(hashStart))
 
@@ -260,39 +248,40 @@ func (s *SpokFile) run(stream iostream.IOStream, runner shell.Runner, force bool
 
 		s.logger.Debug("Task %s current checksum: %.15s cached checksum: %.15s", taskToRun.Name, currentDigest, cachedDigest)
 
-		var result shell.Results
-		skipped := false
+		// A task is only ever skipped on the strength of its own digest: it must have file
+		// dependencies, have been run successfully on exactly these files before and not be forced.
+		// Tasks without file dependencies always run.
+		if !force && len(toHash) != 0 && cachedDigest != "" && currentDigest == cachedDigest {
+			results = append(results, task.Result{Task: taskToRun.Name, Skipped: true})
+			continue
+		}
 
-		switch {
-		case cachedDigest == "" || currentDigest != cachedDigest:
-			// The digest is either empty or out of date, in which case the action to be taken is the same
-			// update the cache digest and run the task
-			if updateCache {
-				cachedState.Set(taskToRun.Name, currentDigest)
+		// The task is about to run so whatever digest is recorded for it is no longer true,
+		// forget it before running so a failed or interrupted run can never leave it behind
+		if cachedDigest != "" {
+			cachedState.Set(taskToRun.Name, "")
+			if err := cachedState.Dump(cachePath); err != nil {
+				return nil, err
 			}
-			result, err = taskToRun.Run(runner, stream, s.Env())
-			if err != nil {
-				return nil, fmt.Errorf("Task %q encountered an error: %w", taskToRun.Name, err)
-			}
+		}
 
-		case currentDigest == cachedDigest:
-			// This task has been run before and its digest has not changed, therefore
-			// we don't need to run it again
-			skipped = true
-			updateCache = false
+		result, err := taskToRun.Run(runner, stream, s.Env())
+		if err != nil {
+			return nil, fmt.Errorf("Task %q encountered an error: %w", taskToRun.Name, err)
+		}
+
+		// Record the digest as soon as the task has succeeded, independently of what
+		// happens to the other tasks in this run
+		if result.Ok() && len(toHash) != 0 && currentDigest != "" {
+			s.logger.Debug("Updating cached state for task %s", taskToRun.Name)
+			cachedState.Set(taskToRun.Name, currentDigest)
+			if err := cachedState.Dump(cachePath); err != nil {
+				return nil, err
+			}
 		}
 
 		// Gather up all the task results
-		results = append(results, task.Result{CommandResults: result, Task: taskToRun.Name, Skipped: skipped})
-	}
-
-	// Only update the cache if force was not set, the task declares file dependencies
-	// and the task run was successful
-	if !force && updateCache && results.Ok() {
-		s.logger.Debug("Updating cached state")
-		if err := cachedState.Dump(cachePath); err != nil {
-			return nil, err
-		}
+		results = append(results, task.Result{CommandResults: result, Task: taskToRun.Name, Skipped: false})
 	}
 
 	return results, nil
